@@ -20,8 +20,12 @@ class RemovableDisposable(abc.DisposableBase):
 
     def dispose(self) -> None:
         self.observer.dispose()
-        if not self.subject.is_disposed and self.observer in self.subject.observers:
-            self.subject.observers.remove(self.observer)
+        with self.subject.lock:
+            if (
+                not self.subject.is_disposed
+                and self.observer in self.subject.observers
+            ):
+                self.subject.observers.remove(self.observer)
 
 
 class QueueItem(NamedTuple):
